@@ -247,6 +247,7 @@ def run(tier):
     ck.rule("E11.chain-rule", "ParametricEvalHelper: value = ref_value; grad_j = sum_k ref_grad_k * jac_inv(k,j); hess_ab = sum_kl ref_hess_kl jac_inv(k,a) jac_inv(l,b) + sum_k ref_grad_k hess_inv(k,a,b), for every slot below max_local_dofs; TrafoEvalHelper::calc_hess_inv(k,a,b) = - sum_c jac_inv(k,c) sum_lm hess_ten(c,l,m) jac_inv(l,a) jac_inv(m,b) (operands and index order)", 43)
 
     ck.rule("E13.iso-chart-projection", "Trafo::Isoparam::Evaluator<degree>::prepare(cell) of the hypercube shapes, degrees 1-3, in the scenario 'every sub-entity has a chart': (a) the corners of the coefficient lattice hold the mesh vertices index_set<d,0>(cell,k) and map_point(reference vertex k) returns exactly that vertex; (b) every lattice point in the relative interior of the local sub-entity (e,i) - located through Shape's FaceIndexMapping<shape,e,0> vertex table and the corner positions, point = corner(v_0) + sum_m t_m (corner(v_2^m) - corner(v_0)) / degree, t_m = 1..degree-1 - ends as chart->project(.) with the chart taken from the chart vector of dimension e at the GLOBAL entity index_set<d,e>(cell,i) (the cell itself: at the cell index), all of its coordinates from one projection; (c) for edges the projected argument is the linear interpolation at t/degree between the two vertices of THAT edge in the edge's vertex order. A lattice point left unprojected (or projected onto a neighbour's chart) lies on the chord while the facet trafo / the neighbouring cell put it on the chart: affine functions are no longer reproduced and congruent cells get different volumes", 69)
+    ck.rule("E11.volume-quadrature", "Trafo::Standard::EvalHelper<shape>::volume() (the cell volume = integral of the Jacobian volume over the reference cell): the value is sum_k w_k vol(J(p_k)) with the Jacobians taken at reference points p_k (calc_jac_mat at p_k, or the matrix assembled from the coefficients = J at the barycentre); the rule (p_k, w_k) integrates exactly every polynomial of the degree det J has on that shape - hypercube of dimension d: all monomials with every exponent <= d-1 over [-1,1]^d (d = 3: the full 2x2x2 Gauss rule), simplex: constants (weights sum to 1/d!); an incomplete point set (half of the Gauss points counted twice) is exact only for cells that are point symmetric", 6)
     ck.rule("E13.is-on-ref", "InverseMappingHelper<Shape>::is_on_ref(p, tol) (the accept test of InverseMapping::unmap_point): the accepted set, extracted as a conjunction of affine inequalities in p and tol, contains the closed reference cell of Shape::ReferenceCell for every tol >= 0 (every reference vertex satisfies every inequality; the set is convex) and only grows with tol (no inequality gets tighter when tol increases); otherwise points on a facet/vertex of a cell are dropped by unmap_point", 12)
 
     ck.rule("E13.bbox-candidates", "InverseMapping::find_candidate_cells (documented: never a false negative): the condition under which a cell is appended to the candidate list - extracted over one arbitrary iteration of the cell loop as a conjunction of inequalities in the point p and the corners lo = bbox[0], hi = bbox[1] of the cell's bounding box (path enumeration: reject-if-outside, accept-if-inside, flags, early exits alike) - accepts the CLOSED box: every inequality is satisfied, non-strictly, at all corners p_j in {lo_j, hi_j} for every lo <= hi (hence on the whole box, the inequalities are affine); a strict inequality drops the points on the faces of the bounding box, which for a box tolerance of 0 (or a point on the inflated face) are points of the cell itself", 6)
@@ -665,6 +666,7 @@ def analyse(ck, facts, tier, covered, not_covered, primary=True):
 
     # ---- chain rule -----------------------------------------------------------------------------------------
     check_chain_rule(ck, facts, tag)
+    check_volume_quadrature(ck, facts, tag)
 
     # ---- reference-cell predicate of the inverse mapping ---------------------------------------------------------
     check_is_on_ref(ck, facts, refcell, tag)
@@ -1418,6 +1420,108 @@ def check_trafo(ck, facts, refcell, tag, sh, wd, meths):
                 ck.incomplete("E11.trafo-vertex-map", "%s: map_point(reference vertex %d)[%d] = %s is not expressed through vertex_set[index_set(cell,.)] (coefficient set-up not recognised)" % (key, k, i, got))
                 continue
             ck.ob("E11.trafo-vertex-map", key, ok, "map_point(reference vertex %d = %s)[%d] = %s, expected the coordinate %d of mesh vertex index_set<%d,0>(cell,%d)" % (k, tuple(map(str, rv)), i, got, i, dim, k) if not ok else "= %s" % nm, fm.file, fm.line)
+
+
+def check_volume_quadrature(ck, facts, tag):
+    rule = "E11.volume-quadrature"
+    helpers = {}
+    for f in facts.functions:
+        m = re.match(r"^FEAT::Trafo::Standard::EvalHelper<.*FEAT::Shape::(Simplex|Hypercube)<(\d)>, (\d)>$", f.cls or "")
+        if m and f.tk != "pattern" and f.name in ("volume", "calc_jac_mat"):
+            helpers.setdefault(("%s<%s>" % (m.group(1), m.group(2)), int(m.group(3))), {})[f.name] = f
+    for (sh, wd), meths in sorted(helpers.items()):
+        dim = shape_dim(sh)
+        if "volume" not in meths or "calc_jac_mat" not in meths or dim < 2:
+            continue      # 1D: the length is the norm of the single Jacobian column, no quadrature
+        fvol, fjac = meths["volume"], meths["calc_jac_mat"]
+        key = "EvalHelper::volume/%s/world%d" % (sh, wd)
+        events = []
+
+        def model(sx, node, callee, this_loc, args, fn):
+            nm = callee.rsplit("::", 1)[-1]
+            if nm == "calc_jac_mat" and len(args) == 3 and isinstance(args[0], Loc) and isinstance(args[1], Loc):
+                pt = tuple(sx.num(args[1].child(i)).const_value() for i in range(dim))
+                if any(c is None for c in pt):
+                    raise NotClosedForm("calc_jac_mat at a non-constant point")
+                for i in range(wd):
+                    for j in range(dim):
+                        sx.write(args[0].child(i).child(j), Poly.sym("JAC@%d[%d][%d]" % (len(events), i, j)))
+                events.append(("pt", pt))
+                return args[0]
+            if nm == "vol" and this_loc is not None and not args:
+                ents = {p2: v for p2, v in sx.sub_entries(this_loc)}
+                name = "VOL%d" % len(events)
+                events.append(("vol", ents))
+                return Poly.sym(name)
+            return None
+        try:
+            sx = SymEx([facts], opaque=model, no_inline=r"::(calc_jac_mat|vol)$")
+            ret = sx.num(sx.run(fvol, args=[Loc("C")], this=None))
+            # J at a symbolic point, for the helpers that assemble the matrix themselves
+            sj = SymEx([facts])
+            sj.run(fjac, args=[Loc("J"), Loc("X"), Loc("C")], this=None)
+            Jsym = {p2: v for p2, v in sj.outputs("J").items()}
+        except NotClosedForm as e:
+            ck.incomplete(rule, "%s%s: %s" % (tag, key, e))
+            continue
+        pts = []
+        unknown = []
+        if ret.degree() > 1 or ret.t.get((), 0) != 0:
+            ck.incomplete(rule, "%s%s: the returned value %s is not a weighted sum of Jacobian volumes" % (tag, key, str(ret)[:120]))
+            continue
+        for mon, w in ret.t.items():
+            k = int(mon[0][0][3:]) if mon[0][0].startswith("VOL") else None
+            if k is None:
+                unknown.append("term %s" % mon[0][0])
+                continue
+            ents = events[k][1]
+            names = {v.single_symbol() for v in ents.values() if isinstance(v, Poly)}
+            jm = {re.match(r"^JAC@(\d+)\[", n2).group(1) for n2 in names if n2 and n2.startswith("JAC@")}
+            if len(jm) == 1 and all(n2 and n2.startswith("JAC@") for n2 in names) and len(ents) == wd * dim:
+                pts.append((events[int(next(iter(jm)))][1], w))
+                continue
+            # matrix assembled from the coefficients: which point p gives J(p) = M?  constant J: any point; else try the barycentre
+            X = [leaf_name("X", i) for i in range(dim)]
+            if all(not (set(v.symbols()) & set(X)) for v in Jsym.values()):
+                if all(ents.get(p2) == v for p2, v in Jsym.items()):
+                    pts.append((None, w))
+                    continue
+            centre = tuple(Fraction(0) for _ in range(dim))
+            if all(ents.get(p2) == v.subs(dict(zip(X, centre))) for p2, v in Jsym.items()):
+                pts.append((centre, w))
+                continue
+            unknown.append("the matrix of one vol() call is not the Jacobian at a recognised reference point")
+        if unknown:
+            ck.incomplete(rule, "%s%s: %s" % (tag, key, "; ".join(unknown[:2])))
+            continue
+        problems = []
+        tol = Fraction(1, 10 ** 30)
+        if sh.startswith("Simplex"):
+            tot = sum(w for _, w in pts)
+            fact = Fraction(1)
+            for q in range(2, dim + 1):
+                fact *= q
+            if abs(tot - 1 / fact) > tol:
+                problems.append("the weights sum to %s, the reference simplex has the volume 1/%d" % (tot, fact))
+        else:
+            if any(p2 is None for p2, _ in pts):
+                problems.append("Jacobian taken without a reference point")
+            else:
+                for ex in itertools.product(range(dim), repeat=dim):
+                    want = Fraction(1)
+                    for a in ex:
+                        want *= Fraction(2, a + 1) if a % 2 == 0 else 0
+                    got = Fraction(0)
+                    for p2, w in pts:
+                        t = Fraction(w)
+                        for c, a in zip(p2, ex):
+                            t *= Fraction(c) ** a
+                        got += t
+                    if abs(got - want) > tol:
+                        problems.append("the rule (%d points) gives %s for the monomial %s instead of %s: det J of a general cell contains this monomial, so the volume is wrong unless the cell is point symmetric" % (
+                            len(pts), float(got), "*".join("x%d^%d" % (i, a) for i, a in enumerate(ex) if a) or "1", want))
+                        break
+        ck.ob(rule, tag + key, not problems, "; ".join(problems[:2]) if problems else "%d point(s), exact for the degree of det J" % len(pts), fvol.file, fvol.line)
 
 
 def check_chain_rule(ck, facts, tag):
